@@ -865,6 +865,23 @@ func (iv *Inv) key(s invSite) string {
 	return k
 }
 
+// dropReceiver removes the receiver type from the function part of an inventory key:
+// "index @ x/m/keeper.Keeper.f : what" -> "index @ x/m/keeper.f : what".
+func dropReceiver(key string) string {
+	i := strings.Index(key, " @ ")
+	j := strings.Index(key, " : ")
+	if i < 0 || j < i {
+		return key
+	}
+	fn := key[i+3 : j]
+	slash := strings.LastIndex(fn, "/")
+	parts := strings.Split(fn[slash+1:], ".")
+	if len(parts) != 3 {
+		return key
+	}
+	return key[:i+3] + fn[:slash+1] + parts[0] + "." + parts[2] + key[j:]
+}
+
 func shortCallee(s string) string {
 	s = strings.ReplaceAll(s, modPath+"/", "")
 	s = strings.ReplaceAll(s, "github.com/cosmos/cosmos-sdk/", "sdk/")
@@ -913,6 +930,21 @@ func (iv *Inv) discharge(s invSite, reach map[*ssa.Function]*ssa.Function) {
 		iv.used[key] = true
 		iv.r.Assume(iv.rule, key, pos, "vetted: "+reason)
 		return
+	}
+	// a function that moved to another receiver type of the same package (Keeper.f -> state.f) keeps its reviewed
+	// entries: the argument is about what the function does; accepted only when the receiver-free key is unambiguous
+	if nk := dropReceiver(key); nk != key {
+		var match []string
+		for k := range iv.vetted {
+			if dropReceiver(k) == nk {
+				match = append(match, k)
+			}
+		}
+		if len(match) == 1 {
+			iv.used[match[0]] = true
+			iv.r.Assume(iv.rule, key, pos, "vetted (entry of "+match[0]+", the function moved to another receiver): "+iv.vetted[match[0]])
+			return
+		}
 	}
 	detail := how
 	if detail == "" {
